@@ -178,6 +178,12 @@ func (r *Report) Finish(verifDir, tier string, seed int64, ff *FindingsFile, sta
 	})
 	out := &Outcome{}
 	replayDir := filepath.Join(verifDir, "evidence", "replay")
+	// replay files of earlier runs of this property are stale
+	if old, _ := filepath.Glob(filepath.Join(replayDir, r.Property+"-*.json")); len(old) > 0 {
+		for _, f := range old {
+			_ = os.Remove(f)
+		}
+	}
 	counts := map[Status]int{}
 	n := 0
 	for _, o := range r.Obs {
